@@ -486,6 +486,11 @@ fn check_message<T: Serialize + DeserializeOwned>(cx: &mut Ctx, ty: &'static str
         try_injected(rep, Cbor::Integer(k.into()), pos, &k.to_string(), rng);
         let t = *rng.pick(&["zzUnknown", "", "x-y", "RpId ", "client_data_hash"]);
         try_injected(rep, Cbor::Text(t.into()), pos, &format!("\"{t}\""), rng);
+        // a text key that differs from a member's name in the case of its letters names no member
+        // (capitalised and upper-case forms only: they can equal no lower-camel-case name)
+        let name = table[rng.below(table.len())].1;
+        let t = if rng.bool() { name.to_ascii_uppercase() } else { name[..1].to_ascii_uppercase() + &name[1..] };
+        try_injected(rep, Cbor::Text(t.clone()), pos, &format!("\"{t}\""), rng);
     }
     // several unknown keys at once (a message from a newer protocol version carries more than one)
     {
@@ -764,7 +769,7 @@ pub fn run(args: &Args) -> Report {
         "C13",
         &args.tier,
         args.seed,
-        "generated values of the 7 CTAP2 message types (every optional member present/absent, nested descriptors, extension inputs/outputs, arbitrary byte strings, authenticator data below 4 KiB), serialised and parsed with a generic CBOR parser against key tables written from the CTAP specification; unknown integer/text keys injected at every position; each member duplicated; each required member removed; option defaults; all 256 status bytes in isolation and end-to-end; distinct by (type, set of present members, size bucket) resp. status byte; every generated message is non-trivial when it parses as a map",
+        "generated values of the 7 CTAP2 message types (every optional member present/absent, nested descriptors, extension inputs/outputs, arbitrary byte strings, authenticator data below 4 KiB), serialised and parsed with a generic CBOR parser against key tables written from the CTAP specification; unknown integer/text keys (also member names in another letter case) injected at every position; each member duplicated; each required member removed; option defaults; all 256 status bytes in isolation and end-to-end; distinct by (type, set of present members, size bucket) resp. status byte; every generated message is non-trivial when it parses as a map",
     );
     rep.assumptions.push("equal message = the re-serialisation parses to an equal generic CBOR value (nested maps compared order-insensitively); Debug text is not compared".into());
     rep.assumptions.push("embedded authenticator data stays below 4096 bytes (WebAuthn size limits)".into());
